@@ -64,9 +64,21 @@ func (s *sboxSession) Close() error {
 type sboxSM struct {
 	sessions []*sboxSession
 	created  int
+	// injected fault: the failAt-th NewSession call of the history (counted across restarts in *calls)
+	// fails once; *faulted records that it fired.
+	calls   *int
+	failAt  int
+	faulted *bool
 }
 
 func (m *sboxSM) NewSession(l log.Logger, args bgp.SessionParameters) (bgp.Session, error) {
+	if m.calls != nil {
+		*m.calls++
+		if m.failAt > 0 && *m.calls == m.failAt {
+			*m.faulted = true
+			return nil, fmt.Errorf("injected: session to %s could not be created", args.SessionName)
+		}
+	}
 	m.created++
 	s := &sboxSession{name: args.SessionName, params: args, gen: m.created}
 	m.sessions = append(m.sessions, s)
@@ -151,6 +163,11 @@ type sbox struct {
 	configsDelivered int
 	configsRefused int
 	plainAdvs      bool // no advertisement of this history carries node selectors
+	// C05 only: the failSessionAt-th NewSession call fails once (0 = never); after it fired only the
+	// step monitor judges (a failed SetConfig is not retried by design, so quiescent expectations stop applying)
+	failSessionAt  int
+	sessionCalls   int
+	sessionFaulted bool
 	mon sboxMon
 	cfgSeen     map[string]string // what the config reconciler listed in its current reconcile, by kind
 	lastCfgKey  string
@@ -259,6 +276,9 @@ func (sb *sbox) build() {
 	}
 	sb.l2 = l2
 	sb.sm = &sboxSM{}
+	if sb.failSessionAt > 0 {
+		sb.sm.calls, sb.sm.failAt, sb.sm.faulted = &sb.sessionCalls, sb.failSessionAt, &sb.sessionFaulted
+	}
 	sb.bgpc = &bgpController{
 		logger:             logger,
 		myNode:             sboxMyNode,
